@@ -161,6 +161,17 @@ func genPackTree(rng *Rng, risky bool) (*TNode, bool, string) {
 			// a rule ending in ** that is no whole-segment **: matches files as well as directories
 			ignore += rng.Pick([]string{"a**", "b.txt**", "c**", "e.tf**", "sub**", "d**"}) + "\n"
 		}
+		if rng.Chance(12) {
+			// a malformed line (unclosed bracket) among the rules: it matches nothing and the other rules stay in force
+			lines := strings.Split(ignore, "\n")
+			at := rng.Intn(len(lines))
+			bad := rng.Pick([]string{"notes[draft.md", "[", "a[b", "x.tf["})
+			lines = append(lines[:at], append([]string{bad}, lines[at:]...)...)
+			ignore = strings.Join(lines, "\n")
+			if rng.Chance(60) {
+				ignore += rng.Pick([]string{"a", "b.txt", "/a", "*.tf", "sub/", "d"}) + "\n"
+			}
+		}
 		src.Kids[".terraformignore"] = tfile(ignore, 0o644)
 		src.Kids[".terraformignore"].Mtime = 1400000001
 	}
@@ -218,6 +229,23 @@ func genPackTree(rng *Rng, risky bool) (*TNode, bool, string) {
 		"out":     tdir(0o755, nil),
 	})
 	w.Kids["oalias"] = tlink("outside")
+	if rng.Chance(15) {
+		// a target that passes through a linked directory and then "..": as text it ends at /w/outside/f (or d),
+		// the operating system ends at /w/other/f: header and data must come from the same file
+		outside.Kids["dl"] = tlink("../other/deep")
+		switch rng.Intn(4) {
+		case 0:
+			w.Kids["other"].Kids["f"] = tfile("OTHER--F!", 0o644) // same length as outside/f
+		case 1:
+			w.Kids["other"].Kids["f"] = tfile("oth", 0o644)
+		case 2:
+			if risky {
+				w.Kids["other"].Kids["f"] = &TNode{Kind: "fifo"}
+			}
+		}
+		src.Kids[rng.Pick([]string{"to-phys", "m.txt"})] = tlink("../outside/dl/../" + rng.Pick([]string{"f", "f", "d", "chain"}))
+		hasOutLink = true
+	}
 	root := tdir(0o755, map[string]*TNode{"w": w, "wl": tlink("w"), "secret": tfile("top-secret", 0o600), "cwd2": tdir(0o755, map[string]*TNode{"rl": tlink("../w/src")})})
 	return root, hasOutLink, ignore
 }
